@@ -7,6 +7,7 @@ mod child;
 mod events;
 mod interpose;
 mod lifecycle;
+mod locks;
 mod panics;
 mod placement;
 mod pool;
@@ -39,6 +40,7 @@ fn main() {
         "lifecycle" => lifecycle::run(&args[2], &args[3]),
         "placement" => placement::run(&args[2], &args[3]),
         "times" => times::run(&args[2], &args[3]),
+        "locks" => locks::run(&args[2], &args[3]),
         "selfcheck" => {
             // used by `check.py setup`: proves interposition is live
             events::open(&args[2]);
